@@ -154,6 +154,9 @@ var seedExpectations = []seedExpect{
 	{"spirv-image-key-raw-format", "C02", "cachekey.mapped", "imageTypeKey"},
 	{"spirv-pushconstant-wrapper", "C02", "space.sameclass", "globalNeedsWrapper"},
 	{"push-constant-spelling", "C03", "space.sameclass", "writeGlobalVariable"},
+	{"glsl-texture-argument-type", "C05", "imagetype.viaglobal", "resolveImageType"},
+	{"hlsl-texture-argument-type", "C03", "imagetype.viaglobal", "getStorageLoadHelper"},
+	{"glsl-reserved-prefix", "C16", "names.genformat", "reserved-prefix:gl_"},
 	{"glsl-vector-select", "C05", "select.condshape", "writeSelect"},
 	{"glsl-image-atomic-coord", "C05", "image.coordbuilder", "writeImageAtomic"},
 	{"glsl-shallow-feature-scan", "C05", "walker.shallow", "scanStatementsForFeatures"},
